@@ -1,6 +1,7 @@
 package main
 
 import (
+	"os"
 	"fmt"
 	"strings"
 
@@ -292,16 +293,16 @@ func checkC15(c *Ctx) {
 			{"module-counter", "令计 = 0\n如何下一个？\n\t计 = 计 + 1\n\t输出 计\n", "【（下一个），（下一个），（下一个）】"},
 			{"module-table", "令表 = 【1，2】\n如何添？\n\t输入数\n\t以表（后增：数）\n\t输出 表\n", "【（添：3），（添：4）】"},
 			{"module-variable-through-sibling", "令基 = 21\n如何外？\n\t输出（内）\n如何内？\n\t输出 基 * 2\n", "（外）"},
-			{"module-variable-in-constructor", "令前缀 = “P-”\n定义签：\n\t其文 = “”\n如何新建签？\n\t输入名\n\t其文 = 前缀 + 名\n", "（新建签：“x”）之文"},
+			{"module-variable-in-constructor", "令前缀 = “P-”\n定义签：\n\t其文 = “”\n如何新建签？\n\t输入名\n\t其文 = 【前缀，名】\n", "（新建签：“x”）之文"},
 			{"module-variable-in-handler", "令备用 = 7\n如何试？\n\t输出 1 / 0\n\n\t拦截异常：\n\t\t输出 备用\n", "（试）"},
 		}
 		// (the importer takes everything, only what it needs, or defines a method of the same name as
 		// a helper of the module: none of that changes what the module's own code does)
-		person := "如何默认称呼？\n\t输出 “乙氏”\n定义人：\n\t其名 = “”\n\t如何全名？\n\t\t输出 （默认称呼） + 其名\n如何新建人？\n\t输入名\n\t其名 = （默认称呼） + 名\n如何造人？\n\t输入名\n\t输出（新建人：名）\n"
+		person := "如何默认称呼？\n\t输出 “乙氏”\n定义人：\n\t其称 = “”\n\t其名 = “”\n\t如何全名？\n\t\t输出 【（默认称呼），其名】\n如何新建人？\n\t输入名\n\t其名 = 名\n\t其称 = （默认称呼）\n如何造人？\n\t输入名\n\t输出（新建人：名）\n"
 		mms = append(mms,
-			mm{"constructor-uses-module-helper", person, "（新建人：“甲”）之名"},
+			mm{"constructor-uses-module-helper", person, "（新建人：“甲”）之称"},
 			mm{"type-method-uses-module-helper", person, "以（新建人：“甲”）（全名）"},
-			mm{"factory-uses-module-helper", person, "（造人：“甲”）之名"},
+			mm{"factory-uses-module-helper", person, "（造人：“甲”）之称"},
 		)
 		mreqs := []Req{}
 		for _, m := range mms {
@@ -344,6 +345,9 @@ func checkC15(c *Ctx) {
 		for k, m := range mms {
 			own, imported := outs[2*k], outs[2*k+1]
 			c.Nontrivial("own-vs-imported|" + m.name + "|" + own)
+			if strings.HasPrefix(own, "error") || own == "" {
+				c.Inconclusive(fmt.Sprintf("own-vs-imported/%s: the module's own file does not run (%s) - the case is not a test", m.name, own))
+			}
 			if !strings.HasPrefix(own, "error") && own != "" && own != imported {
 				c.Violation("modules:own-vs-imported:"+m.name, fmt.Sprintf("%s: %s yields %s at the end of the module's own file and %s when an importer makes the same call\n--- 模.zn\n%s", m.name, m.probe, own, imported, m.mod), map[string]interface{}{"req": mreqs[2*k+1]})
 			}
@@ -351,6 +355,12 @@ func checkC15(c *Ctx) {
 		for x, e := range extras {
 			m := mms[e.k]
 			own, imported := outs[2*e.k], outs[2*len(mms)+x]
+			if os.Getenv("VERIF_DBG_C15") != "" {
+				fmt.Printf("DBG %s %s own=%s imported=%s\n", m.name, e.name, own, imported)
+			}
+			if strings.HasPrefix(own, "error") || own == "" {
+				c.Inconclusive(fmt.Sprintf("own-vs-imported/%s: the module's own file does not run (%s) - the case is not a test", m.name, own))
+			}
 			c.Nontrivial("own-vs-imported|" + m.name + "|" + e.name + "|" + own)
 			if !strings.HasPrefix(own, "error") && own != "" && own != imported {
 				c.Violation("modules:own-vs-imported:"+m.name+":"+e.name, fmt.Sprintf("%s (%s): %s yields %s at the end of the module's own file and %s in this importer\n--- main.zn\n%s--- 模.zn\n%s", m.name, e.name, m.probe, own, imported, e.main, m.mod), map[string]interface{}{"req": mreqs[2*len(mms)+x]})
